@@ -269,6 +269,32 @@ SummaryViolations(o) ==
   UNION {{<<o[MT].rows[i], c>> : c \in SummaryViolationsOf(o, i)}
          : i \in {k \in Idx(o, MT) : IntOf(o[MT].cols.summarySourceTable[k]) # 0}}
 
+(***************************************************************************)
+(* C31: direct flags                                                       *)
+(***************************************************************************)
+SummaryTableIds(o) ==
+  IF ~(MT \in DOMAIN o /\ "summarySourceTable" \in DOMAIN o[MT].cols) THEN {}
+  ELSE {StrOf(o[MT].cols.tableId[i]) : i \in {k \in Idx(o, MT) : IntOf(o[MT].cols.summarySourceTable[k]) # 0}}
+
+\* indices of stored actions whose direct flag contradicts the property.
+\* p = document before the call, o = after; req = [table -> requested columns] for record-edit requests.
+BadDirect(p, o, stored, direct, req) ==
+  LET n == IF Len(stored) < Len(direct) THEN Len(stored) ELSE Len(direct)
+      IsRec(a) == a.n \in {"BulkAddRecord", "BulkUpdateRecord", "BulkRemoveRecord"}
+      sums == SummaryTableIds(p) \cup SummaryTableIds(o)
+      AllFormula(a) == /\ a.n = "BulkUpdateRecord" /\ a.t \in DOMAIN o /\ DOMAIN a.c # {}
+                       /\ \A c \in DOMAIN a.c : c \in DOMAIN o[a.t].isf /\ o[a.t].isf[c]
+      Requested(a) == /\ IsRec(a) /\ a.t \in DOMAIN req /\ a.t \notin sums
+                      /\ \/ a.n = "BulkRemoveRecord"
+                         \/ a.n = "BulkAddRecord" /\ \E c \in DOMAIN a.c : c \in {req[a.t][k] : k \in 1..Len(req[a.t])}
+                         \/ a.n = "BulkUpdateRecord" /\ \E c \in DOMAIN a.c :
+                               c \in {req[a.t][k] : k \in 1..Len(req[a.t])} /\ a.t \in DOMAIN o
+                               /\ c \in DOMAIN o[a.t].isf /\ ~o[a.t].isf[c]
+  IN {<<i, "summary-direct">> : i \in {k \in 1..n : IsRec(stored[k]) /\ stored[k].t \in sums /\ direct[k]}}
+     \cup {<<i, "formula-direct">> : i \in {k \in 1..n : AllFormula(stored[k]) /\ direct[k]}}
+     \cup {<<i, "schema-direct">> : i \in {k \in 1..n : DOMAIN req # {} /\ ~IsRec(stored[k]) /\ direct[k]}}
+     \cup {<<i, "request-indirect">> : i \in {k \in 1..n : Requested(stored[k]) /\ ~direct[k]}}
+
 HasSummary(o) == MT \in DOMAIN o /\ "summarySourceTable" \in DOMAIN o[MT].cols
                  /\ \E k \in Idx(o, MT) : IntOf(o[MT].cols.summarySourceTable[k]) # 0
 HasTwoWay(o) == MC \in DOMAIN o /\ "reverseCol" \in DOMAIN o[MC].cols
